@@ -555,6 +555,58 @@ func rankVamana(w *load.World, c *core.Collector) {
 				}
 			}
 			okIDs = nodeID != "" && nodeID == setID || nodeVal != nil && nodeVal == setVal
+			if !okIDs {
+				// two-pass form: the set is filled afterwards from the NodeId fields of the finished list
+				fromNodeId := func(v ssa.Value) bool {
+					for k := range ssax.Prov(v) {
+						if strings.Contains(k, "field:NodeId") {
+							return true
+						}
+					}
+					return false
+				}
+				for _, b := range f.Blocks {
+					for _, in := range b.Instrs {
+						cl, ok := in.(*ssa.Call)
+						if !ok || cl.Call.StaticCallee() == nil || len(cl.Call.Args) < 2 {
+							continue
+						}
+						n := cl.Call.StaticCallee().String()
+						switch {
+						case strings.HasSuffix(n, "roaring64.Bitmap).Add"):
+							if fromNodeId(cl.Call.Args[1]) && !ssax.Reaches(b, wr.Block()) {
+								okIDs = true
+							}
+						case strings.HasSuffix(n, "roaring64.Bitmap).AddMany"):
+							// every element stored into the slice handed over is a NodeId of the list
+							var base ssa.Value = cl.Call.Args[1]
+							if sl, ok := base.(*ssa.Slice); ok {
+								base = sl.X
+							}
+							nSt, allIds := 0, true
+							for _, bb := range f.Blocks {
+								for _, ii := range bb.Instrs {
+									st, ok := ii.(*ssa.Store)
+									if !ok {
+										continue
+									}
+									ia, ok := st.Addr.(*ssa.IndexAddr)
+									if !ok || ia.X != base {
+										continue
+									}
+									nSt++
+									if !fromNodeId(st.Val) {
+										allIds = false
+									}
+								}
+							}
+							if nSt > 0 && allIds {
+								okIDs = true
+							}
+						}
+					}
+				}
+			}
 		}
 		if okIDs {
 			c.Add("RANK", "vamana:resultset-ids"+k, core.OK, w.At(wr), "", props...)
